@@ -321,7 +321,7 @@ func (s *engineSuite) do(t []string) string {
 	case "del":
 		return "del " + commitLine(s.kv.Del(ctx, unhx(t[1])))
 	case "itdel":
-		// itdel <start> <end> <n> [rewrite=<hexval>]: advance an iterator n+1 times, optionally rewrite
+		// itdel <start> <end> <n> [rewrite=<hexval>|remove=1]: advance an iterator n+1 times, optionally rewrite / remove
 		// the current key with another value first, then compare-and-delete the current element
 		_, opts := parseOpts(t[1:])
 		it, err := s.kv.Iter(ctx, unhx(t[1]), unhx(t[2]), 0, 0)
@@ -339,6 +339,12 @@ func (s *engineSuite) do(t []string) string {
 			b := s.kv.BeginBatchWrite()
 			b.Put(it.Key(), unhx(rw), 0)
 			if err := b.Commit(ctx); err != nil {
+				return "itdel err"
+			}
+		}
+		if opts["remove"] == "1" {
+			// the record under the iterator is REMOVED (not rewritten) before the compare-and-delete is evaluated
+			if err := s.kv.Del(ctx, it.Key()); err != nil {
 				return "itdel err"
 			}
 		}
